@@ -14,7 +14,7 @@ TECHNIQUE = "bounded exhaustive enumeration of repeated items x bounds x context
 RULE = ("every item kind (plain mnemonic, mnemonic+operands, $and/$or/$not/$and_any_order groups, nested group) x every "
         "bound (times:n for n in 0..N; {min,max} for 0<=min<=max<=N) in the spelling the grammar admits (inside the body "
         "for a plain mnemonic, sibling key otherwise) x 7 contexts (alone, after 'ret', before 'ret', between, and three where the neighbour can match the same instruction as the repeated item) x EVERY "
-        "listing of length 0..L over a 3-instruction alphabet, so runs of 0..L repetitions all occur; oracle = reference "
+        "listing of length 0..L over a 4-instruction alphabet, so runs of 0..L repetitions all occur; the plain / operand / $not / $or kinds also on every listing of length 0..3 over a value-rich alphabet (vmovdqu, cmovne, 4- and 5-operand instructions); oracle = reference "
         "matcher (verdict, every reported span genuine and record-aligned); large-count family: times n / {min,max} for n up to 1001 on plain, $or, $not and $and items against runs of lo-1, lo, mid, hi, hi+1 repetitions (closed-form expectation); differential: times:n and the item written n "
         "times give identical result lists on every listing. Non-trivial = reference finds the rule or its first item "
         "matches somewhere.")
@@ -25,6 +25,9 @@ LEVEL_TEXT = ("All repeated-item rules of the stated grammar x all listings up t
 LEVEL_NOTE = "Trusted: mc/refmodel.py times semantics (r consecutive repetitions, min<=r<=max), listing formatter."
 
 ALPHA = [("mov", ["%rax", "%rbx"]), ("push", ["%rax"]), ("ret", []), ("movl", ["$0x1", "%eax"])]
+# a second, value-rich alphabet: mnemonics with letters in FRONT of the rule's name and digits (vmovdqu, cmovne), 4 and 5 operands
+VALPHA = [("vmovdqu", ["%ymm1", "%ymm2"]), ("cmovne", ["%rax", "%rbx"]), ("vblendvps", ["%xmm3", "%xmm2", "%xmm1", "%xmm0"]), ("ret", []),
+          ("vpermil2ps", ["$0x0", "%xmm3", "%xmm2", "%xmm1", "%xmm0"])]
 
 
 def bounds(tier):
@@ -97,6 +100,9 @@ def all_rules(tier):
                     cfgs = e1.CONFIGS     # repetition must not disturb the full-match flags (mov vs movl, rax vs %rax)
                 rules.append(e1.RuleCase(f"{kname}/{bkind}/{cname}", pat, "c02", cfgs=cfgs, want=("verdict", "aligned", "genuine"),
                                          extra=copies))
+                if kname in ("plain", "ops", "not", "or", "not_and") and cname in ("alone", "before", "between"):
+                    rules.append(e1.RuleCase(f"{kname}/{bkind}/{cname}/v", pat, "c02v", cfgs=((False, False),), want=("verdict", "aligned", "genuine"),
+                                             extra=copies))
     return rules
 
 
@@ -159,7 +165,7 @@ def shards(tier):
 
 
 def build_lsets(h, tier):
-    return {"c02": e1.ListingSet(h, ALPHA, bounds(tier)["L_listing_len"])}
+    return {"c02": e1.ListingSet(h, ALPHA, bounds(tier)["L_listing_len"]), "c02v": e1.ListingSet(h, VALPHA, 3)}
 
 
 def run_shard(shard, tier, h, res, known):
@@ -168,11 +174,11 @@ def run_shard(shard, tier, h, res, known):
     lsets = e1.get_lsets(h, tier, build_lsets)
     e1.run_rules(h, res, known, rules, lsets, shard, prop=ID)
     # differential: times:n  ==  n copies (real code vs real code)
-    ls = lsets["c02"]
     for ri in range(shard["lo"], len(rules), shard["n"]):
         rc = rules[ri]
         if rc.extra is None or rc.extra == []:
             continue
+        ls = lsets[rc.lset]
         try:
             m1 = h.mop(make_rule_doc(rc.pattern))
             m2 = h.mop(make_rule_doc(rc.extra))
